@@ -1,13 +1,21 @@
 """
 C10 — cleaning is a deterministic, order-preserving function of content and config.
 
-Tie: every case (fresh Cleaner + one clean_content call, or one ContentProvider.write) is executed by the
-real implementation in child interpreters under PYTHONHASHSEED = 0..k-1 (16 quick / 256 thorough, cases
-batched per child) and every child's output must equal the single output of IV.CleanState.cleanContent /
-providerWrite (Drivers/C10.lean; the protocol handler IV/Model/CleanProto.lean is shared with C09).
+Tie: every case is executed by the real implementation in child interpreters under PYTHONHASHSEED = 0..k-1
+(12 quick / 256 thorough, cases batched per child) and every child's outputs AND mappings must equal the single
+answer of IV.CleanState (Drivers/C10.lean; the protocol handler IV/Model/CleanProto.lean is shared with C09).
+Case kinds: `clean` (fresh Cleaner + one clean_content), `write` (DatasourceProvider.write), `hist` (several
+calls on one Cleaner with lines on which one obfuscator finds several NEW items at once, so the numbering
+hostN / 10.230.230.N depends on the order the items of a line are taken; the whole history is repeated in fresh
+Cleaners built from the SAME config / rm_conf / allow-list / content objects), `glue` (real filterable specs:
+RegistryPoint + simple_file / glob_file / simple_command, filters registered with add_filter(max_match=1..3),
+collected twice in one process through TextFileProvider / CommandOutputProvider .write).
 Oracle (implementation only): two seeds that disagree on a case; an output line whose unique marker is
-missing, duplicated or out of order; an all-blank result returned or stored.
+missing, duplicated or out of order; an all-blank result returned or stored; a caller's object (allow list,
+filters cache, config, rm_conf, content list, no_obfuscate list) that differs from the deep copy taken before
+the call; a repetition of the same cleaning in a fresh Cleaner that differs from the first.
 """
+import copy
 import json
 import os
 import re
@@ -22,16 +30,146 @@ if __name__ == "__main__":       # child interpreter: the harness package and th
 from harness.common import VERIF, REPO, enc, dec, run_driver
 from harness import c09
 
+from insights.client.config import InsightsConfig
+from insights.cleaner import Cleaner
+from insights.core import dr, filters as core_filters
 from insights.core.context import HostContext
 from insights.core.exceptions import ContentException
-from insights.core.spec_factory import DatasourceProvider
+from insights.core.spec_factory import DatasourceProvider, RegistryPoint, SpecSet, simple_file, glob_file, simple_command
 
 ALL_OBF = ["hostname", "ip", "ipv6", "keyword", "mac", "password"]
 
 
 # --------------------------------------------------------------------------- implementation adapter (runs in the child)
 
+def mk_conf(cfg):
+    return InsightsConfig(obfuscate=bool(cfg["obfuscate"]), obfuscate_ipv6=bool(cfg["ipv6"]),
+                          obfuscate_hostname=bool(cfg["hostname"]), obfuscate_mac=bool(cfg["mac"]))
+
+
+def mk_rm(cfg):
+    rm = {}
+    if cfg["keywords"] is not None:
+        rm["keywords"] = list(cfg["keywords"])
+    if cfg["patterns"]:
+        rm["patterns"] = list(cfg["patterns"])
+    return rm
+
+
+def diff_names(before, now):
+    return [k for k in before if before[k] != now[k]]
+
+
+def maps_json(cl):
+    m = c09.impl_mappings(cl)
+    return dict((k, [list(p) for p in v]) for k, v in m.items())
+
+
+def write_result(p, dst, cmd=False):
+    try:
+        p.write(dst)
+        res = "S"
+    except ContentException as e:
+        res = "E1" if "after filtering" in str(e) else "E2" if "after cleaning" in str(e) else "E?"
+    except Exception as e:
+        # a command whose grep stage matched nothing fails with CalledProcessError: nothing to collect
+        res = "E1" if cmd and type(e).__name__ == "CalledProcessError" else "X:" + type(e).__name__
+    text = None
+    if os.path.exists(dst):
+        with open(dst, "rb") as fh:
+            text = fh.read().decode("utf-8")
+    return {"write": res, "stored": text}
+
+
+def run_hist(case):
+    """several calls on one Cleaner, the whole history `rounds` times in fresh Cleaners built from the SAME objects"""
+    cfg = case["cfg"]
+    conf, rm = mk_conf(cfg), mk_rm(cfg)
+    allow = dict((name, dict((k, v) for k, v in items)) for name, items in case["allowlists"].items())
+    contents = [list(c["lines"]) for c in case["calls"]]
+    noobf = [list(c["no_obfuscate"]) for c in case["calls"]]
+
+    def state():
+        return {"config": dict(vars(conf)), "rm_conf": rm, "allowlist": allow, "content": contents, "no_obfuscate": noobf}
+    before = copy.deepcopy(state())
+    rounds, mutated = [], []
+    for r in range(case["rounds"]):
+        cl = Cleaner(conf, rm, cfg["fqdn"])
+        outs, maps = [], []
+        for i, c in enumerate(case["calls"]):
+            al = allow[c["allow"]] if c["allow"] is not None else None
+            try:
+                o = cl.clean_content(contents[i], no_obfuscate=noobf[i], no_redact=bool(c["no_redact"]), allowlist=al)
+            except Exception as e:
+                o = ["<exception %s>" % type(e).__name__]
+            outs.append(list(o))
+            maps.append(maps_json(cl))
+            d = diff_names(before, state())
+            if d and len(mutated) < 4:
+                mutated.append("round %d call %d changed the caller's %s" % (r, i, ", ".join(d)))
+        rounds.append({"outs": outs, "maps": maps})
+    rep = ["round %d gives %r" % (r, rounds[r]["outs"]) for r in range(1, len(rounds)) if rounds[r] != rounds[0]]
+    return {"outs": rounds[0]["outs"], "maps": rounds[0]["maps"], "repeat": rep[:2], "mutated": mutated}
+
+
+def run_glue(case, tmp):
+    """real specs: filters through add_filter(max_match), providers through the datasource, write() through the glue"""
+    cfg = case["cfg"]
+    d = os.path.join(tmp, "g%d" % case["id"])
+    os.makedirs(os.path.join(d, "sub"))
+    for f in case["files"]:
+        with open(os.path.join(d, f["name"]), "wb") as fh:
+            fh.write("".join(l + "\n" for l in f["lines"]).encode("utf-8"))
+    tag = "C10g%d" % case["id"]
+    noobf = list(case["no_obfuscate"])
+    pt = RegistryPoint(filterable=True, multi_output=case["spec"] == "glob", no_obfuscate=noobf, no_redact=bool(case["no_redact"]))
+    S = type("S" + tag, (SpecSet,), {"p": pt})
+    if case["spec"] == "file":
+        impl = simple_file(case["files"][0]["name"], context=HostContext)
+    elif case["spec"] == "glob":
+        impl = glob_file("sub/*.txt", context=HostContext)
+    else:
+        impl = simple_command("/bin/cat %s" % os.path.join(d, case["files"][0]["name"]), context=HostContext)
+    I = type("I" + tag, (S,), {"p": impl})
+    for pats, mx in case["filters"]:
+        core_filters.add_filter(S.p, pats if len(pats) > 1 else pats[0], mx)
+    conf, rm = mk_conf(cfg), mk_rm(cfg)
+
+    def state():
+        return {"filters": core_filters.get_filters(I.p, True), "registered": dict(core_filters.FILTERS[S.p]),
+                "config": dict(vars(conf)), "rm_conf": rm, "no_obfuscate": noobf}
+    before = copy.deepcopy(state())
+    order = list(before["filters"].keys())
+    colls, mutated, maps = [], [], None
+    for c in range(case["collections"]):
+        cl = Cleaner(conf, rm, cfg["fqdn"])
+        b = dr.Broker()
+        b[HostContext] = HostContext(root=d)
+        b["cleaner"] = cl
+        try:
+            provs = I.p(b)
+        except Exception as e:
+            colls.append(["<%s>" % type(e).__name__])
+            continue
+        provs = provs if isinstance(provs, list) else [provs]
+        res = []
+        for j, p in enumerate(provs):
+            res.append(write_result(p, os.path.join(d, "out", "c%d_%d" % (c, j)), cmd=case["spec"] == "cmd"))
+            dn = diff_names(before, state())
+            if dn and len(mutated) < 4:
+                mutated.append("collection %d provider %d changed the caller's %s (now %r)" % (c, j, ", ".join(dn), state()["filters"]))
+        colls.append(res)
+        if c == 0:
+            maps = maps_json(cl)
+    rep = ["collection %d gives %r" % (c, colls[c]) for c in range(1, len(colls)) if colls[c] != colls[0]]
+    return {"stored": colls[0], "maps": maps, "repeat": rep[:2], "mutated": mutated, "order": order}
+
+
 def run_case(case, tmp):
+    if case["kind"] == "hist":
+        return run_hist(case)
+    if case["kind"] == "glue":
+        return run_glue(case, tmp)
     cl = c09.mk_cleaner(case["cfg"])
     call = case["call"]
     if case["kind"] == "clean":
@@ -40,18 +178,7 @@ def run_case(case, tmp):
     ctx = HostContext() if case["host_ctx"] else None
     p = DatasourceProvider(list(call["lines"]), "etc/spec", ctx=ctx, cleaner=cl if case["has_cleaner"] else None,
                            no_obfuscate=list(call["no_obfuscate"]), no_redact=bool(call["no_redact"]))
-    try:
-        p.write(dst)
-        res = "S"
-    except ContentException as e:
-        res = "E1" if "after filtering" in str(e) else "E2" if "after cleaning" in str(e) else "E?"
-    except Exception as e:
-        res = "X:" + type(e).__name__
-    text = None
-    if os.path.exists(dst):
-        with open(dst, "rb") as fh:
-            text = fh.read().decode("utf-8")
-    return {"write": res, "stored": text}
+    return write_result(p, dst)
 
 
 def child_main():
@@ -150,10 +277,139 @@ def gen_case(rng, i):
     return case
 
 
+# ---- several NEW items on one line, over several lines and calls (numbering depends on the order they are taken)
+
+HOST_LABELS = ["db", "www", "mail", "api", "ns1", "x", "node-7", "a_b", "gw2", "Z9"]
+KW_POOL = ["secret", "Zorg", "token", "QUUX", "alpha", "beta", "lab", "db", "keyword", "10.", "ww"]
+JOIN = [" ", " ", ",", ";", " = ", " / ", "|"]
+
+
+def gen_hist(rng, i):
+    dom = rng.choice(["lab.io", "corp.net", "example.org", "a.example.com"])
+    fqdn = rng.choice(["srv9", "myhost", "web01"]) + "." + dom
+    obf = 1 if rng.random() < 0.95 else 0
+    kws = rng.sample(KW_POOL, rng.choice([0, 2, 3, 4, 5]))
+    cfg = {"fqdn": fqdn, "obfuscate": obf, "ipv6": 1 if rng.random() < 0.7 else 0,
+           "hostname": 1 if obf and rng.random() < 0.9 else 0, "mac": 1 if rng.random() < 0.9 else 0,
+           "keywords": kws or None, "patterns": rng.choice([[], [], [], ["DROP"]])}
+    base = rng.sample(HOST_LABELS, 4)
+    hosts = []
+    for b in base:
+        hosts += ["%s.%s" % (b, dom), "www.%s.%s" % (b, dom), "a.www.%s.%s" % (b, dom), "%s2.%s" % (b, dom), "x%s.%s" % (b, dom)]
+    hosts += [fqdn, "x." + fqdn]
+    ips = list(set("%d.%d.%d.%d" % (rng.choice([1, 9, 10, 100, 172, 192, 203]), rng.randrange(256), rng.choice([0, 1, 20, 200]),
+                                    rng.randrange(256)) for _ in range(10))) + ["10.230.230.1", "10.230.230.3"]
+    ip6s = ["fe80::%x:%x" % (rng.randrange(1, 0xffff), rng.randrange(1, 0xffff)) for _ in range(4)] + \
+           ["2001:db8::%x" % rng.randrange(1, 0xfff) for _ in range(3)] + ["1:2:3:4:5:6:7:%x" % rng.randrange(1, 0xff)]
+    macs = []
+    for _ in range(7):
+        sepc = rng.choice([":", ":", "-"])
+        m = sepc.join("%02x" % rng.randrange(256) for _ in range(6))
+        macs.append(m.upper() if rng.random() < 0.3 else m)
+    pools = {"host": hosts, "ip": ips, "ip6": ip6s, "mac": macs, "kw": kws or ["none"]}
+    allowlists = {}
+    if rng.random() < 0.35:
+        keys = rng.sample(["@", "db", "10.", ":", "www", "e", "@0@", "2"], rng.randrange(1, 4))
+        allowlists["A"] = [[k, rng.choice([1, 1, 2, 3])] for k in keys]
+    calls = []
+    for _ in range(rng.choice([1, 2, 2, 3, 4])):
+        lines = []
+        for j in range(rng.choice([1, 2, 2, 3, 4])):
+            toks = []
+            for kind in rng.sample(["host", "ip", "ip6", "mac", "kw"], rng.choice([1, 1, 2, 3])):
+                pool = pools[kind]
+                toks += rng.sample(pool, min(len(pool), rng.randrange(2, 7)))
+            if rng.random() < 0.3:
+                toks += [rng.choice(["link", "up", "DROP", "password=x", "127.0.0.1", "host2.example.com"])]
+            rng.shuffle(toks)
+            text = "@%d@" % j
+            for t in toks:
+                text += rng.choice(JOIN) + t
+            lines.append(text)
+        if rng.random() < 0.08:
+            lines.insert(rng.randrange(len(lines) + 1), "")
+        no = rng.sample(ALL_OBF, rng.randrange(1, 3)) if rng.random() < 0.15 else []
+        calls.append({"lines": lines, "no_obfuscate": no, "no_redact": 1 if rng.random() < 0.15 else 0,
+                      "allow": "A" if allowlists and rng.random() < 0.8 else None})
+    return {"id": i, "kind": "hist", "cfg": cfg, "calls": calls, "allowlists": allowlists, "rounds": rng.choice([2, 2, 3])}
+
+
+# ---- the glue path: filters registered with add_filter(max_match), providers made by the datasource
+
+FILTER_KEYS = ["link", "mtu", "inet", "up", "10.", "host", "db", "@1@", ":"]
+
+
+def competing(case):
+    """a line that contains two registered patterns: which budget it uses up depends on the order of the filters dict"""
+    keys = set(k for pats, _ in case["filters"] for k in pats)
+    return any(sum(1 for k in keys if k in l) > 1 for f in case["files"] for l in f["lines"])
+
+
+def gen_glue(rng, i):
+    dom = rng.choice(["lab.io", "corp.net"])
+    fqdn = "srv9." + dom
+    cfg = {"fqdn": fqdn, "obfuscate": 1, "ipv6": 1 if rng.random() < 0.5 else 0, "hostname": 1 if rng.random() < 0.8 else 0,
+           "mac": 1, "keywords": rng.choice([None, ["Zorg"], ["link", "secret"]]), "patterns": rng.choice([[], [], ["DROP"]])}
+    spec = rng.choice(["file", "file", "glob", "glob", "cmd"])
+    nfiles = rng.choice([2, 3]) if spec == "glob" else 1
+    words = ["link", "mtu", "inet", "up", "10.1.2.%d" % rng.randrange(9), "db.%s" % dom, "www.db.%s" % dom, "host", "DROP",
+             "aa:bb:cc:dd:ee:%02x" % rng.randrange(256), "1.2.3.4", "9.9.9.9", "plain", "Zorg", "srv9"]
+    files = []
+    for n in range(nfiles):
+        lines = []
+        for j in range(rng.choice([3, 4, 6, 8])):
+            lines.append("@%d@ %s" % (j, " ".join(rng.sample(words, rng.choice([1, 2, 2, 3])))))
+        files.append({"name": ("sub/f%d.txt" % n) if spec == "glob" else "f0", "lines": lines})
+    keys = rng.sample(FILTER_KEYS, rng.choice([1, 1, 2, 3]))
+    filters = []
+    if len(keys) > 1 and rng.random() < 0.5:
+        filters.append([keys, rng.choice([1, 2, 3])])                 # one add_filter call with a list
+    else:
+        for k in keys:
+            filters.append([[k], rng.choice([1, 1, 2, 3])])           # separate calls, separate budgets
+    if rng.random() < 0.2:
+        filters.append([[keys[0]], rng.choice([1, 2, 3])])            # the same pattern again: the larger budget wins
+    case = {"id": i, "kind": "glue", "cfg": cfg, "spec": spec, "files": files, "filters": filters,
+            "no_obfuscate": rng.sample(ALL_OBF, rng.randrange(1, 3)) if rng.random() < 0.2 else [],
+            "no_redact": 1 if rng.random() < 0.2 else 0, "collections": 2}
+    if competing(case) and rng.random() < 0.8:
+        case["filters"] = [[[keys[0]], filters[0][1]]]
+    return case
+
+
+def glue_allow(case):
+    """the filters dict the glue hands to clean_content: per pattern the largest max_match, here in sorted order"""
+    al = {}
+    for pats, mx in case["filters"]:
+        for k in pats:
+            al[k] = max(al.get(k, 0), mx)
+    return dict(sorted(al.items()))
+
+
 def model_lines(case):
+    kind = case["kind"]
+    if kind == "hist":
+        alls = [l for c in case["calls"] for l in c["lines"]]
+        ls = [c09.sha_line(set([case["cfg"]["fqdn"]]) | c09.hextets(alls)), c09.init_line(case["cfg"])]
+        for c in case["calls"]:
+            al = None if c["allow"] is None else dict((k, v) for k, v in case["allowlists"][c["allow"]])
+            ls.append(c09.clean_line({"lines": c["lines"], "no_obfuscate": c["no_obfuscate"], "no_redact": c["no_redact"],
+                                      "allowlist": al}))
+            ls.append("map")
+        return ls
+    if kind == "glue":
+        alls = [l for f in case["files"] for l in f["lines"]]
+        ls = [c09.sha_line(set([case["cfg"]["fqdn"]]) | c09.hextets(alls)), c09.init_line(case["cfg"])]
+        al = glue_allow(case)
+        for f in case["files"]:
+            grep = [l for l in f["lines"] if any(k in l for k in al)]          # the `grep -F` stage (C07's subject)
+            ls.append("write\t1\t1\t%s\t%d\t%s%s" % (c09.enc_l(case["no_obfuscate"]), case["no_redact"], c09.enc_allow(al),
+                                                     "".join("\t" + enc(l) for l in grep)))
+        ls.append("map")
+        return ls
     call = case["call"]
     ls = [c09.sha_line(set([case["cfg"]["fqdn"]]) | c09.hextets(call["lines"])), c09.init_line(case["cfg"])]
-    if case["kind"] == "clean":
+    if kind == "clean":
         ls.append(c09.clean_line(call))
     else:
         ls.append("write\t%d\t%d\t%s\t%d\t%s%s" % (case["host_ctx"], case["has_cleaner"], c09.enc_l(call["no_obfuscate"]),
@@ -162,13 +418,45 @@ def model_lines(case):
     return ls
 
 
-def model_result(case, ans):
-    if case["kind"] == "clean":
-        return {"out": c09.model_out(ans)}
+def model_write(ans):
     fs = ans.split("\t")
     if fs[0] == "S":
         return {"write": "S", "stored": dec(fs[1])}
     return {"write": fs[0], "stored": "<stored>" if len(fs) > 1 else None}
+
+
+def model_maps(ans):
+    m = c09.model_mappings(ans)
+    return dict((k, [list(p) for p in v]) for k, v in m.items())
+
+
+def model_result(case, ans):
+    """ans = the driver's answers to model_lines(case)"""
+    kind = case["kind"]
+    if kind == "clean":
+        return {"out": c09.model_out(ans[2])}
+    if kind == "write":
+        return model_write(ans[2])
+    if kind == "hist":
+        n = len(case["calls"])
+        return {"outs": [c09.model_out(ans[2 + 2 * j]) for j in range(n)], "maps": [model_maps(ans[3 + 2 * j]) for j in range(n)]}
+    n = len(case["files"])
+    return {"stored": [model_write(ans[2 + j]) for j in range(n)], "maps": model_maps(ans[2 + n])}
+
+
+def tie_view(case, res):
+    """the part of a child's answer that the model predicts"""
+    kind = case["kind"]
+    if kind == "hist":
+        return {"outs": res["outs"], "maps": res["maps"]}
+    if kind == "glue":
+        return {"stored": res["stored"], "maps": res["maps"]}
+    return res
+
+
+def seed_view(case, res):
+    """what must not depend on the hash seed (the order of the filters dict itself is reported, not compared)"""
+    return dict((k, v) for k, v in res.items() if k != "order")
 
 
 # --------------------------------------------------------------------------- oracle
@@ -177,10 +465,62 @@ def marker(line):
     return re.findall(r"@(\d+)@", line)
 
 
+def subsequence_violation(lines, out):
+    src = [(marker(l) or [None])[0] for l in lines]
+    pos = 0
+    for o in out:
+        m = marker(o)
+        if len(m) > 1:
+            return "output line %r carries two markers" % o
+        if o != "" and not m:
+            return "output line %r has no source line" % o
+        want = m[0] if m else None
+        while pos < len(src) and src[pos] != want:
+            pos += 1
+        if pos == len(src):
+            return "output line %r is out of order or has no source line" % o
+        pos += 1
+    return None
+
+
 def order_violation(case, res):
-    """an output line with no or two source lines, out of order, or an all-blank result returned / stored"""
+    """an output line with no or two source lines, out of order; an all-blank result returned / stored; a caller's object
+    written into; a repetition that differs"""
+    kind = case["kind"]
+    if kind in ("hist", "glue"):
+        if res["mutated"]:
+            return res["mutated"][0]
+        if res["repeat"]:
+            return "the same cleaning repeated in a fresh Cleaner differs from the first: " + res["repeat"][0]
+    if kind == "hist":
+        for c, out in zip(case["calls"], res["outs"]):
+            if out and out[0].startswith("<exception"):
+                continue
+            if out and not any(out):
+                return "an all-blank result was returned: %r" % (out,)
+            v = subsequence_violation(c["lines"], out)
+            if v:
+                return v
+        return None
+    if kind == "glue":
+        if len(res["stored"]) != len(case["files"]):
+            return "%d providers for %d files: %r" % (len(res["stored"]), len(case["files"]), res["stored"])
+        for f, r in zip(case["files"], res["stored"]):
+            if r["write"] in ("E1", "E2"):
+                if r["stored"] is not None:
+                    return "content error %s but a file was written: %r" % (r["write"], r["stored"])
+                continue
+            if r["write"] != "S" or r["stored"] is None:
+                return "write raised %s / stored %r" % (r["write"], r["stored"])
+            out = r["stored"].split("\n")
+            if not any(out):
+                return "an all-blank result was stored: %r" % (r["stored"],)
+            v = subsequence_violation(f["lines"], out)
+            if v:
+                return v
+        return None
     lines = case["call"]["lines"]
-    if case["kind"] == "clean":
+    if kind == "clean":
         out = res["out"]
         if out and out[0].startswith("<exception"):
             return None
@@ -206,21 +546,22 @@ def order_violation(case, res):
             return None if out == lines or (not lines and res["stored"] == "") else "uncleaned content was altered"
     if out and not any(out):
         return "an all-blank result was returned: %r" % (out,)
-    src = [(marker(l) or [None])[0] for l in lines]
-    pos = 0
-    for o in out:
-        m = marker(o)
-        if len(m) > 1:
-            return "output line %r carries two markers" % o
-        if o != "" and not m:
-            return "output line %r has no source line" % o
-        want = m[0] if m else None
-        while pos < len(src) and src[pos] != want:
-            pos += 1
-        if pos == len(src):
-            return "output line %r is out of order or has no source line" % o
-        pos += 1
+    return subsequence_violation(lines, out)
+
+
+def finding_of(case):
+    """listed finding a failure on this case is an instance of — decided on the INPUT alone"""
+    if case["kind"] == "glue" and competing(case):
+        return "filter-order-hash-seed"
     return None
+
+
+def case_lines(case):
+    if case["kind"] == "hist":
+        return [l for c in case["calls"] for l in c["lines"]]
+    if case["kind"] == "glue":
+        return [l for f in case["files"] for l in f["lines"]]
+    return case["call"]["lines"]
 
 
 def load_corpus():
@@ -229,25 +570,57 @@ def load_corpus():
     if os.path.isdir(cdir):
         for f in sorted(os.listdir(cdir)):
             if f.endswith(".json"):
-                out.append(json.load(open(os.path.join(cdir, f), encoding="utf-8"))["case"])
+                d = json.load(open(os.path.join(cdir, f), encoding="utf-8"))
+                out.append((d.get("finding"), d["case"]))
     return out
+
+
+def gen_any(rng, i):
+    k = rng.random()
+    if k < 0.40:
+        return gen_hist(rng, i)
+    if k < 0.55:
+        return gen_glue(rng, i)
+    return gen_case(rng, i)
+
+
+def run_model(cases, setup):
+    lines, spans = list(setup), []
+    for c in cases:
+        ml = model_lines(c)
+        spans.append((len(lines), len(ml)))
+        lines += ml
+    ans = run_driver("C10", lines)
+    return [model_result(c, ans[a:a + n]) for c, (a, n) in zip(cases, spans)]
+
+
+def js(x):
+    return json.dumps(x, sort_keys=True, ensure_ascii=False)
 
 
 def run(chk):
     rng = chk.rng
     quick = chk.tier == "quick"
-    n_cases = 1200 if quick else 4000
-    seeds = list(range(16 if quick else 256))
-    chk.rule = ("one fresh Cleaner + one clean_content call (80%) or one DatasourceProvider.write (20%) per case; 0-8 lines, each "
-                "starting with a unique marker @i@, built from pieces where obfuscators compete (keyword inside a host name, address "
-                "inside a longer token, MAC/IPv6 overlaps, keyword equal to a substitute prefix or to '********', password lines with "
-                "addresses and keywords), random no_obfuscate lists (shuffled), no_redact, allow lists, exclusion patterns that can "
-                "drop every line; every case runs under each PYTHONHASHSEED; non-trivial = at least two obfuscators enabled and a "
-                "non-blank line, case not seen before")
+    n_cases = 700 if quick else 3000
+    seeds = list(range(12 if quick else 256))
+    chk.rule = ("four kinds of case, each starting from fresh Cleaners. clean (36%) / write (9%): one clean_content call or one "
+                "DatasourceProvider.write on 0-8 marker-prefixed lines built from pieces where obfuscators compete (keyword inside a "
+                "host name, address inside a longer token, MAC/IPv6 overlaps, keyword equal to a substitute prefix, password lines). "
+                "hist (40%): 1-4 calls of 1-4 lines on one Cleaner, every line carrying 2-6 DIFFERENT items for 1-3 obfuscators drawn "
+                "from per-case pools (host names of the system's domain incl. suffix/prefix pairs db.D / www.db.D / a.www.db.D / xdb.D, "
+                "IPv4, IPv6, MAC, up to 5 keywords) so that several are NEW at once and numbering depends on the order they are taken; "
+                "outputs AND all mappings after every call are compared; the history is repeated 2-3 times in fresh Cleaners built from "
+                "the same config, rm_conf, allow-list dict (budgets 1-3) and content list objects. glue (15%): RegistryPoint(filterable) "
+                "+ simple_file / glob_file (2-3 files) / simple_command, filters through add_filter(max_match 1-3), collected twice in "
+                "one process, every provider written through write(). Every case runs under each PYTHONHASHSEED; non-trivial = at least "
+                "two obfuscators enabled and a non-blank line, case not seen before")
     chk.assumptions = c09_assumptions() + [
         "determinism across hash seeds is not a theorem about a Lean function: it is established by every child interpreter's "
-        "output being equal to the model's single output",
-        "ContentProvider.write is exercised through DatasourceProvider (allow lists only through clean_content directly)",
+        "outputs and mappings being equal to the model's single answer (numbering: theorems ip_/host_numbering_first_occurrence)",
+        "the `grep -F` pre-filter of the glue path is stated by the harness (lines containing a pattern), its tie is C07's",
+        "glue cases in which one line contains two registered patterns are not compared with the model: there the order of the "
+        "filters dict decides which budget is used up and that order is hash dependent (known finding filter-order-hash-seed)",
+        "Keyword.mapping() is read from a set: compared sorted",
     ]
     chk.lean()
     try:
@@ -255,53 +628,71 @@ def run(chk):
     except c09.Unsupported as e:
         chk.tie_broken("translate", "a pattern of the live modules left the modelled regex fragment: %s" % e, None)
         return
-    cases = load_corpus()
+    corpus = load_corpus()
+    cases = [c for _, c in corpus]
     n_corpus = len(cases)
-    cases += [gen_case(rng, 0) for _ in range(n_cases)]
+    cases += [gen_any(rng, 0) for _ in range(n_cases)]
     for i, c in enumerate(cases):
         c["id"] = i
     res = run_seeds(cases, seeds)
     chk.extra["hash_seeds"] = len(seeds)
+    model = run_model(cases, setup)
 
-    lines = list(setup)
-    for c in cases:
-        lines += model_lines(c)
-    ans = run_driver("C10", lines)
-    base = len(setup)
-    model = [model_result(c, ans[base + 3 * i + 2]) for i, c in enumerate(cases)]
+    # witnesses of the listed findings (corpus files that name one)
+    for (fid, _), i in zip(corpus, range(n_corpus)):
+        if fid:
+            differ = any(seed_view(cases[i], res[s][i]) != seed_view(cases[i], res[seeds[0]][i]) for s in seeds[1:])
+            chk.witnesses.append({"finding": fid, "reproduced": differ,
+                                  "answers": sorted(set(js(seed_view(cases[i], res[s][i]).get("stored")) for s in seeds))[:3]})
+            if differ:
+                chk.finding_reproduced(fid)
 
-    seen = set()
+    seen, tied = set(), []
     for i, c in enumerate(cases):
-        key = json.dumps(c, sort_keys=True)
+        key = js(c)
         en = sum(1 for k in ("obfuscate", "ipv6", "hostname", "mac") if c["cfg"][k]) + (1 if c["cfg"]["keywords"] else 0)
-        chk.case(key, en >= 2 and any(c["call"]["lines"]) and key not in seen)
+        chk.case(key, en >= 2 and any(case_lines(c)) and key not in seen)
         seen.add(key)
         chk.count("kind:" + c["kind"])
-        chk.count("lines:%d" % len(c["call"]["lines"]))
         r0 = res[seeds[0]][i]
-        if c["kind"] == "clean":
+        fid = finding_of(c)
+        if c["kind"] == "hist":
+            chk.count("hist:calls=%d" % len(c["calls"]))
+            chk.count("hist:new-items-per-line>=2", sum(1 for l in case_lines(c) if l))
+            chk.count("hist:issued", sum(len(v) for v in r0["maps"][-1].values()))
+            if c["allowlists"]:
+                chk.count("hist:shared-allowlist")
+        elif c["kind"] == "glue":
+            chk.count("glue:" + c["spec"])
+            chk.count("glue:competing" if fid else "glue:non-competing")
+            for r in r0["stored"]:
+                chk.count("glue:write=" + (r["write"] if isinstance(r, dict) else "exc"))
+        elif c["kind"] == "clean":
             chk.count("result:" + ("empty" if not r0["out"] else "lines"))
         else:
             chk.count("write:" + r0["write"])
         # oracle (a): every seed gives the same answer
         for s in seeds[1:]:
-            if res[s][i] != r0:
-                chk.failure("PYTHONHASHSEED=%d and =%d give different results: %r vs %r" % (seeds[0], s, r0, res[s][i]),
-                            {"case": c, "seeds": [seeds[0], s]})
+            if seed_view(c, res[s][i]) != seed_view(c, r0):
+                chk.failure("PYTHONHASHSEED=%d and =%d give different results: %s vs %s" % (
+                    seeds[0], s, js(seed_view(c, r0))[:600], js(seed_view(c, res[s][i]))[:600]),
+                    {"case": c, "seeds": [seeds[0], s]}, finding=fid)
                 break
-        # oracle (b), (c): order, single source, nothing all-blank
-        for s in seeds[:2]:
+        # oracle (b)-(e): order, single source, nothing all-blank, caller's objects untouched, repetition equal — on every seed
+        for s in seeds:
             v = order_violation(c, res[s][i])
             if v:
                 chk.failure(v, {"case": c, "seeds": [s]})
                 break
-        if i in (n_corpus, n_corpus + 1, n_corpus + 7):
+        if fid is None:
+            tied.append(i)
+        if i in (n_corpus, n_corpus + 1, n_corpus + 2, n_corpus + 7):
             chk.sample({"case": c, "result": r0})
-    # tie: every seed against the model's one output
+    # tie: every seed against the model's one answer
+    tcases = [cases[i] for i in tied]
     for s in seeds:
-        chk.compare("seed-%d-vs-model" % s if len(seeds) <= 16 else "seeds-vs-model", cases,
-                    [json.dumps(x, sort_keys=True, ensure_ascii=False) for x in res[s]],
-                    [json.dumps(x, sort_keys=True, ensure_ascii=False) for x in model])
+        chk.compare("seed-%d-vs-model" % s if len(seeds) <= 16 else "seeds-vs-model", tcases,
+                    [js(tie_view(cases[i], res[s][i])) for i in tied], [js(model[i]) for i in tied])
 
 
 def c09_assumptions():
@@ -318,24 +709,23 @@ def replay(data):
     case, seeds = d["case"], d.get("seeds") or [0, 1]
     if len(seeds) == 1:
         seeds = [seeds[0], seeds[0] + 1]
-    print("replaying", json.dumps(case, ensure_ascii=False)[:1500], "under PYTHONHASHSEED", seeds)
+    print("replaying", json.dumps(case, ensure_ascii=False)[:2500], "under PYTHONHASHSEED", seeds)
     case = dict(case)
     case["id"] = 0
     res = run_seeds([case], seeds, par=2)
-    ans = run_driver("C10", c09.setup_lines() + model_lines(case))
-    model = model_result(case, ans[-1])
-    bad = False
+    model = run_model([case], c09.setup_lines())[0]
+    bad, fid = False, finding_of(case)
     for s in seeds:
-        print("seed %-4d: %s" % (s, json.dumps(res[s][0], ensure_ascii=False)))
+        print("seed %-4d: %s" % (s, js(res[s][0])[:3000]))
         v = order_violation(case, res[s][0])
         if v:
             print("  oracle:", v)
             bad = True
-    print("model    : %s" % json.dumps(model, ensure_ascii=False))
-    if res[seeds[0]][0] != res[seeds[1]][0]:
-        print("  oracle: the two seeds disagree")
-        bad = True
-    print("property violated on this input" if bad else "property holds on this input")
+    print("model    : %s" % js(model)[:3000])
+    if seed_view(case, res[seeds[0]][0]) != seed_view(case, res[seeds[1]][0]):
+        print("  oracle: the two seeds disagree" + (" [listed finding %s]" % fid if fid else ""))
+        bad = bad or fid is None
+    print("property violated on this input" if bad else "property holds on this input (or only a listed finding)")
     return 1 if bad else 0
 
 
